@@ -187,7 +187,13 @@ static int elem_matches(int et, var p, int64_t v) {
 static void check_handed_out(Cont* c, var p, int et, const char* how) {
   /* C19: objects obtained from containers carry the element type and are tagged as embedded */
   if (c->kind == K_TUPLE) return;
-  var t = type_of(p);
+  var volatile tv = NULL; var volatile hx = NULL;
+  try { tv = type_of(p); } catch (e) { hx = e; }
+  if (hx) {
+    char cls[96]; snprintf(cls, sizeof cls, "C19:invalid-header:%s:%s", KNAME[c->kind], how);
+    viol("C19", cls, "object from %s via %s has no valid header (type_of raised %s) after %s", KNAME[c->kind], how, exc_name(hx), g_lastop);
+  }
+  var t = tv;
   if (t isnt ETYPE(et)) {
     char cls[96]; snprintf(cls, sizeof cls, "C19:wrong-type:%s:%s", KNAME[c->kind], how);
     viol("C19", cls, "object from %s via %s has type %s, expected %s", KNAME[c->kind], how, c_str(t), ENAME[et]);
@@ -578,6 +584,7 @@ static int seq_readback(Cont* c, int64_t* out, int cap) {
   size_t L = len(c->obj);
   for (size_t i = 0; i < L && n < cap; i++) {
     var p = get(c->obj, $I(i));
+    if (c->kind != K_TUPLE) check_handed_out(c, p, c->kt, "get");
     if (c->kind == K_TUPLE) {
       int64_t idx = -1;
       for (int j = 0; j < g_npool; j++) if (g_pool[j] is p) { idx = j; break; }
@@ -972,10 +979,11 @@ static void do_assign(const Op* o) {
   adopt_model(d, s);
   if (d->kind != s->kind) stat_add("assign.cross_kind", 1);
   stat_add("assign", 1);
+  if (g_focus == 10) { progress(g_opidx, "C10", "assign"); if (d->kind == s->kind || is_seq(d->kind)) check_pair_equal(d, d->obj, s->obj, d->kind == s->kind ? "assign" : "assign-cross-kind"); }
   progress(g_opidx, cont_prop(d), "assign");
   check_cont(d, 1); check_cont(s, 1);
   progress(g_opidx, "C10", "assign");
-  if (d->kind == s->kind || is_seq(d->kind)) check_pair_equal(d, d->obj, s->obj, d->kind == s->kind ? "assign" : "assign-cross-kind");
+  if (g_focus != 10 && (d->kind == s->kind || is_seq(d->kind))) check_pair_equal(d, d->obj, s->obj, d->kind == s->kind ? "assign" : "assign-cross-kind");
 }
 
 static void do_copy(const Op* o) {
@@ -999,10 +1007,11 @@ static void do_copy(const Op* o) {
   adopt_model(d, s);
   stat_add("copy", 1);
   if (type_of(d->obj) isnt type_of(s->obj)) viol("C19", "C19:wrong-type:copy", "copy of %s has another type", KNAME[s->kind]);
+  if (g_focus == 10) { progress(g_opidx, "C10", "copy"); check_pair_equal(d, d->obj, s->obj, "copy"); }
   progress(g_opidx, cont_prop(d), "copy");
   check_cont(d, 1); check_cont(s, 1);
   progress(g_opidx, "C10", "copy");
-  check_pair_equal(d, d->obj, s->obj, "copy");
+  if (g_focus != 10) check_pair_equal(d, d->obj, s->obj, "copy");
 }
 
 static void do_twin(const Op* o) {
@@ -1127,16 +1136,25 @@ static void do_sprint(const Op* o) {
   progress(g_opidx, "C16", "s_print");
   size_t L = strlen(c->s);
   int pos = (int)(((o->a[1] % (int64_t)(L + 1)) + (int64_t)(L + 1)) % (int64_t)(L + 1));
-  int f = (int)(((o->a[2] % 6) + 6) % 6);
+  int f = (int)(((o->a[2] % 8) + 8) % 8);
   int64_t x = o->a[3];
-  char out[256]; int r = 0;
+  char out[512]; int r = 0;
   switch (f) {
     case 0: snprintf(out, sizeof out, "%li", (long)x); r = print_to(c->obj, pos, "%li", $I(x)); break;
     case 1: snprintf(out, sizeof out, "<%s>", strval(x)); r = print_to(c->obj, pos, "<%s>", $S((char*)strval(x))); break;
     case 2: snprintf(out, sizeof out, "%li", (long)x); r = print_to(c->obj, pos, "%$", $I(x)); break;
     case 3: snprintf(out, sizeof out, "lit%%"); r = print_to(c->obj, pos, "lit%%"); break;
     case 4: snprintf(out, sizeof out, "%5.2f|", fltval(normv(ET_FLT, x))); r = print_to(c->obj, pos, "%5.2f|", $F(fltval(normv(ET_FLT, x)))); break;
-    default: snprintf(out, sizeof out, "%li,%s", (long)x, strval(x + 1)); r = print_to(c->obj, pos, "%li,%s", $I(x), $S((char*)strval(x + 1))); break;
+    case 5: snprintf(out, sizeof out, "%li,%s", (long)x, strval(x + 1)); r = print_to(c->obj, pos, "%li,%s", $I(x), $S((char*)strval(x + 1))); break;
+    case 6: { /* one long %s piece: lengths around 16/32/64/128/256 and in between */
+      static const int L[] = { 15, 16, 17, 31, 32, 33, 63, 64, 65, 127, 128, 129, 200, 255, 256, 257 };
+      int l = L[((x % 16) + 16) % 16]; char piece[300];
+      for (int i = 0; i < l; i++) piece[i] = (char)('a' + (i + (int)(x & 7)) % 26); piece[l] = 0;
+      snprintf(out, sizeof out, "%s", piece); r = print_to(c->obj, pos, "%s", $S(piece)); break; }
+    default: { /* a wide numeric field */
+      static const int W[] = { 20, 31, 32, 33, 63, 64, 65, 100 };
+      int w = W[((x % 8) + 8) % 8]; char fmt[16]; snprintf(fmt, sizeof fmt, "%%%dli", w);
+      snprintf(out, sizeof out, fmt, (long)x); r = print_to(c->obj, pos, fmt, $I(x)); break; }
   }
   if (pos + strlen(out) >= SBUF - 1) return;
   strcpy(c->s + pos, out);
@@ -1260,6 +1278,12 @@ static void do_bad(const Op* o) {
   g_lastop = what;
   stat_add("bad.injected", 1);
   { char k[48]; snprintf(k, sizeof k, "bad.%s", what); stat_add(k, 1); }
+  if (!(g_focus == 0 || g_focus == 12 || g_focus == 19)) {
+    /* another property's check is running: the failed call is just one more operation, judged by the model and the
+     * element ledger under their own names (so that a leak on a failing call shows up as C05, a changed Table as C02) */
+    check_cont(c, 1);
+    return;
+  }
   expect_raise(c, prop, what, ex, acc);
   /* the object is exactly as before: model unchanged, element ledger unchanged */
   if (tok_live() != tl) {
@@ -1327,7 +1351,17 @@ static void containers_execute(const Plan* p) {
     g_opidx = i;
     progress(i, "C05", OPS[o->code].name);
     ev("op %d %s", i, OPS[o->code].name);
-    exec_op(o);
+    {
+      /* an in-contract operation (and the harness reads that follow it) must not raise: report it under a proper class
+       * instead of dying with an uncaught exception; a ValueError while the C19 check runs is an invalid object header */
+      var volatile uex = NULL;
+      try { exec_op(o); } catch (e) { uex = e; }
+      if (uex) {
+        const char* pp = (g_focus == 19 && uex is ValueError) ? "C19" : progress_prop();
+        char cls[128]; snprintf(cls, sizeof cls, "%s:unexpected-exception:%s:%s", pp, OPS[o->code].name, exc_name(uex));
+        viol(pp, cls, "operation %s raised %s although its arguments are valid (after %s)", OPS[o->code].name, exc_name(uex), g_lastop);
+      }
+    }
     progress(i, "C05", "ledger");
     check_ledger();
     if (o->fault == 1) { progress(i, "C01", "burst"); burst(12); for (int k = 0; k < MAXC; k++) if (C[k].live) { progress(i, cont_prop(&C[k]), "post-burst"); check_cont(&C[k], 0); } progress(i, "C05", "ledger"); check_ledger(); }
@@ -1441,7 +1475,7 @@ static void containers_generate(Plan* p, Rng* r) {
       else if (d < 64) plan_add(p, O_SREM, 0, fault, ca, rng_chance(r, 3, 4) ? 1 + rng_below(r, 5) : 0, x, 0, 0, 0);
       else if (d < 72) plan_add(p, O_SMEM, 0, fault, ca, m, x, 0, 0, 0);
       else if (d < 86) plan_add(p, O_RESIZE, 0, fault, ca, x, 0, 0, 0, 0);
-      else plan_add(p, O_SPRINT, 0, fault, ca, x, rng_below(r, 6), (int64_t)rng_below(r, 2000) - 1000, 0, 0);
+      else plan_add(p, O_SPRINT, 0, fault, ca, x, rng_below(r, 8), (int64_t)rng_below(r, 2000) - 1000, 0, 0);
       continue;
     }
     if (g->kind == K_TABLE || g->kind == K_TREE) {
